@@ -84,6 +84,9 @@ package blockstore
 //@   ensures released [C08]: held(b.mu) == 0
 
 //@ func OpenReadWriteFile
+//@   let fsize := call[FileInfo.Size#0]
+//@   call[ReadWrite.initWithRoots#0] assert only_an_empty_file_is_initialised [C06,C12]: fsize == 0
+//@   note a file that holds anything is resumed (and validated by ResumableVersion / Resume) or rejected, never overwritten with a fresh header
 //@   let rverr := call[store.ResumableVersion#0]
 //@   ensures header_layout [C05]: err == nil ==> result0.header.DataOffset == wrap_u64(51 + result0.opts.DataPadding) && result0.header.DataSize == 0 && result0.header.IndexOffset == wrap_u64(wrap_u64(51 + result0.opts.DataPadding) + result0.opts.IndexPadding)
 //@   ensures payload_origin [C01,C05]: err == nil ==> result0.dataWriter != nil && wbase(result0.dataWriter) == ite(result0.opts.WriteAsCarV1, 0, wrap_s64(result0.header.DataOffset))
@@ -103,6 +106,7 @@ package blockstore
 //@   note vocabulary's guarded / guardeduse declarations must hold with held == 0, i.e. it may not touch the index
 
 //@ func (*ReadOnly).AllKeysChan
+//@   call[carv1.ReadHeader#0] assert configured_header_limit [C09]: arg1 == b.opts.MaxAllowedHeaderSize
 //@   requires unlocked [C08]: held(b.mu) == 0
 //@   ghost after go[0]: held(b.mu) := 3
 //@   ensures released_or_handed_over [C08]: held(b.mu) == 0 || held(b.mu) == 3
@@ -204,3 +208,6 @@ package blockstore
 //@   ensures embedded_used [C07]: err == nil && version == 2 && old(idx) == nil && hasidx ==> ref(result0.idx) == ref(eidx)
 //@   ensures versions [C07]: err == nil ==> version == 1 || version == 2
 //@   ensures open [C04]: err == nil ==> !result0.closed
+
+//@ func (*ReadOnly).Roots
+//@   call[carv1.ReadHeader#0] assert configured_header_limit [C09]: arg1 == b.opts.MaxAllowedHeaderSize
